@@ -18,8 +18,9 @@ from common import *
 import sqlcases
 
 TNAME = "t"
-COLS = [{"name": "c1", "kind": "i"}, {"name": "c2", "kind": "i"}, {"name": "c3", "kind": "s"}]
+COLS = [{"name": "c1", "kind": "i"}, {"name": "c2", "kind": "i"}, {"name": "c3", "kind": "s"}, {"name": "c4", "kind": "b"}]
 
+SUBFORMS = ("del_in", "del_notin", "del_exists", "del_scalar", "upd_in", "upd_notexists", "upd_scalar")
 K_EMPTYREL = "update-delete-where-folded-to-false-affects-all-rows"
 K_PARTIAL = "failed-update-delete-partially-applied"
 K_CSE = "update-delete-common-subexpression-unknown-field"
@@ -47,11 +48,18 @@ def gen(ctx, tag, nh, length, mode, seed, br=1, edepth=2, mut="none", workers=4)
 
 # ----------------------------------------------------------------------------- rendering
 
-def plain_lit(v):
+def plain_lit(v, variant=0):
     k = v["k"]
     if k == "n":
         return "NULL"
+    if k == "b":
+        return "TRUE" if v["v"] == 1 else "FALSE"
     if k == "i":
+        # VALUES entries are literals, casts or constant expressions
+        if variant % 4 == 1:
+            return f"CAST({v['v']} AS BIGINT)"
+        if variant % 4 == 2:
+            return f"({v['v'] - 1} + 1)"
         return str(v["v"])
     if k == "s":
         return "'" + sqlcases.STR_POOL[v["v"]] + "'"
@@ -78,10 +86,13 @@ def render_stmt(st, variant, u8v=False):
     X = lambda e, r=ref: sqlcases.expr_sql(e, r, noouter, rs).replace("CAST(NULL AS VARCHAR)", nullstr)
     kind = st["kind"]
     collist = ""
-    if kind in ("insert", "insel") and not (st["cols"] == [1, 2, 3] and variant % 2 == 0):
-        collist = " (" + ", ".join(f"c{c}" for c in st["cols"]) + ")"
+    if kind in ("insert", "insel") and not (st["cols"] == [1, 2, 3, 4] and variant % 2 == 0):
+        # column names in an INSERT list are identifiers: unquoted upper case folds to the column
+        collist = " (" + ", ".join((f"C{c}" if variant % 3 == 1 else f"c{c}") for c in st["cols"]) + ")"
+    if kind == "reject":
+        return render_reject(st, variant)
     if kind == "insert":
-        vals = ", ".join("(" + ", ".join(plain_lit(v) for v in row) + ")" for row in st["rows"])
+        vals = ", ".join("(" + ", ".join(plain_lit(v, variant + j) for j, v in enumerate(row)) + ")" for row in st["rows"])
         return f"INSERT INTO t{collist} VALUES {vals}"
     if kind == "insel":
         src = st["src"]
@@ -101,16 +112,100 @@ def render_stmt(st, variant, u8v=False):
     raise ValueError(kind)
 
 
+def render_reject(st, variant):
+    """Statements that must be refused without touching the table (see GenReject in the specification)."""
+    f = st["src"]
+    sc, tc = (st["cols"] + [1, 1])[:2]
+    fixed = {
+        "ins_overwrite": "INSERT OVERWRITE t VALUES (1, 2, 'a', TRUE)",
+        "replace_into": "REPLACE INTO t VALUES (1, 2, 'a', TRUE)",
+        "ins_arity_less": "INSERT INTO t VALUES (1, 2, 'a')",
+        "ins_arity_more": "INSERT INTO t (c1, c2) VALUES (1, 2, 3)",
+        "ins_unknown_col": "INSERT INTO t (c1, nosuch) VALUES (1, 2)",
+        "ins_dup_col": "INSERT INTO t (c1, C1) VALUES (1, 2)",
+        "upd_unknown_col": "UPDATE t SET nosuch = 1",
+        "upd_unknown_table": "UPDATE nosuch SET c1 = 1",
+        "del_unknown_table": "DELETE FROM nosuch WHERE c1 = 1",
+        "ins_badcast": "INSERT INTO t (c3, c1) VALUES ('a', 'x')",
+        "upd_scalar_set": "UPDATE t SET c1 = (SELECT max(c2) FROM s) WHERE c2 IS NOT NULL",
+        "upd_from": "UPDATE t SET c1 = s.c1 FROM s WHERE t.c2 = s.c2",
+        "upd_tuple": "UPDATE t SET (c1, c2) = (1, 2)",
+        "ins_multipart": "INSERT INTO t (t.c1) VALUES (1)",
+        "del_in": f"DELETE FROM t WHERE c{tc} IN (SELECT c{sc} FROM s)",
+        "del_notin": f"DELETE FROM t WHERE c{tc} NOT IN (SELECT c{sc} FROM s)",
+        "del_exists": f"DELETE FROM t WHERE EXISTS (SELECT 1 FROM s WHERE s.c{sc} = t.c{tc})",
+        "del_scalar": f"DELETE FROM t WHERE c{tc} > (SELECT max(c{sc}) FROM s)",
+        "upd_in": f"UPDATE t SET c1 = 9 WHERE c{tc} IN (SELECT c{sc} FROM s)",
+        "upd_notexists": f"UPDATE t SET c1 = 9 WHERE NOT EXISTS (SELECT 1 FROM s WHERE s.c{sc} = t.c{tc})",
+        "upd_scalar": f"UPDATE t SET c1 = 9 WHERE c{tc} >= (SELECT max(c{sc}) FROM s)",
+    }
+    return fixed[f]
+
+
+def _leaf(e):
+    return e["op"] in ("col", "lit")
+
+
+def string_types(c):
+    """(t_utf8view, s_utf8view): Utf8 / Utf8View for the string columns of t and s.  Mixed types are used whenever
+    they are safe: INSERT .. SELECT from a Utf8View source into a Utf8 table stores a Utf8View batch when the string
+    expression is a CASE/COALESCE (cast decided before type coercion, findings/C39-update-case-type-mismatch.md),
+    so that combination is only used when every string expression selected from s is a column or a literal."""
+    m = c["seed"] % 4
+    if m == 0:
+        return False, False
+    if m == 1:
+        return True, True
+    if m == 2:
+        return True, False
+    safe = all(_leaf(e) for s in c["steps"] if s["st"]["kind"] == "insel" and s["st"]["src"] == "s"
+               for col, e in zip(s["st"]["cols"], s["st"]["es"]) if col == 3)
+    return (False, True) if safe else (False, False)
+
+
+def nl_key(v):
+    return (1, 0) if v["k"] == "n" else (0, v["v"])
+
+
+Q_SORTED = "SELECT c1 FROM t ORDER BY c1 ASC NULLS LAST"
+
+
+def prepared(st, variant, i):
+    """Every 3rd INSERT .. VALUES goes through PREPARE (parameter types inferred from the target columns) + EXECUTE."""
+    if st["kind"] != "insert" or variant % 3 != 0:
+        return None
+    cols = st["cols"]
+    collist = "" if cols == [1, 2, 3, 4] else " (" + ", ".join(f"c{c}" for c in cols) + ")"
+    w = len(cols)
+    rows = ", ".join("(" + ", ".join(f"${r * w + j + 1}" for j in range(w)) + ")" for r in range(len(st["rows"])))
+    args = ", ".join(plain_lit(v) for row in st["rows"] for v in row)
+    return [f"PREPARE p{i} AS INSERT INTO t{collist} VALUES {rows}"], f"EXECUTE p{i}({args})"
+
+
 def render_history(c):
     steps = []
-    u8v = c["seed"] % 2 == 1          # string column as Utf8View (what CREATE TABLE ... VARCHAR gives) or Utf8
+    u8v, s_u8v = string_types(c)
+    c["layout"] = {"t_utf8view": u8v, "s_utf8view": s_u8v, "sorted": c["seed"] % 3 != 0, "empty_batch": c["seed"] % 5 < 2,
+                   "defaults": bool(c["dflt"]), "partitions": len(c["parts0"]), "batch_rows": c["batch"]}
     for i, s in enumerate(c["steps"]):
         sql = render_stmt(s["st"], c["seed"] + 7 * i, u8v)
-        s["sql"] = sql
-        steps.append({"sql": sql, "obs": ["SELECT * FROM t"], "plan": bool(s["unsat"])})
+        pre = []
+        pp = prepared(s["st"], c["seed"] + 7 * i, i)
+        if pp:
+            pre, sql = pp
+            s["prepared"] = True
+        s["sql"] = "; ".join(pre + [sql])
+        steps.append({"sql": sql, "pre": pre, "obs": ["SELECT * FROM t", Q_SORTED], "plan": bool(s["unsat"])})
+    t = {"name": "t", "cols": COLS, "parts": c["parts0"], "batch_rows": c["batch"], "utf8view": u8v,
+         "empty_batch": c["layout"]["empty_batch"]}
+    if c["layout"]["sorted"]:
+        # the table declares "sorted by c1 ASC NULLS LAST" (every partition is): any DML must drop that claim
+        t["parts"] = [sorted(p, key=lambda r: nl_key(r[0])) for p in c["parts0"]]
+        t["sort"] = ["c1"]
+    if c["dflt"]:
+        t["defaults"] = {"c2": {"k": "i", "v": 5}, "c3": {"k": "s", "v": 2}}
     return {"id": c["id"], "config": {"target_partitions": c["tp"]},
-            "tables": [{"name": "t", "cols": COLS, "parts": c["parts0"], "batch_rows": c["batch"], "utf8view": u8v},
-                       {"name": "s", "cols": COLS, "parts": [c["srows"]], "batch_rows": 1, "utf8view": u8v}],
+            "tables": [t, {"name": "s", "cols": COLS, "parts": [c["srows"]], "batch_rows": 1, "utf8view": s_u8v}],
             "steps": steps}
 
 
@@ -161,6 +256,29 @@ def check_history(c, res):
             return P("SELECT * FROM t failed after the statement: " + (obs.get("err") or "")[:300])
         got = obs["rows"]
         unchanged = sqlcases.bag(got) == sqlcases.bag(before)
+        # ORDER BY must really order (a table that still claims its initial sort order after DML would not be sorted)
+        ob2 = r["obs"][1]
+        if not ob2["ok"]:
+            return P("ORDER BY query failed after the statement: " + (ob2.get("err") or "")[:300])
+        keys = [nl_key(x[0]) for x in ob2["rows"]]
+        if keys != sorted(keys) or sorted(keys) != sorted(nl_key(x[0]) for x in got):
+            return P(f"SELECT c1 FROM t ORDER BY c1 ASC NULLS LAST returned {[x[0] for x in ob2['rows']]}: not the sorted c1 column of the table")
+        if st["kind"] == "reject":
+            if not r["ok"]:
+                if not unchanged:
+                    return P("the statement was refused but the table content changed")
+                n += 1
+                continue
+            # a subquery form that the engine executes must have exactly its SQL meaning
+            if st["src"] not in SUBFORMS:
+                return P("a statement that must be refused (malformed / not implemented for memory tables) was accepted")
+            if s["alt"]["err"]:
+                return n, "ref_err_engine_ok", None
+            cnt = r["rows"][0][0]["v"] if r["rows"] and r["rows"][0] else None
+            if cnt != s["alt"]["count"] or sqlcases.bag(got) != sqlcases.bag(s["alt"]["after"]):
+                return P(f"UPDATE/DELETE with a subquery was executed with a wrong effect: count {cnt} (SQL meaning: "
+                         f"{s['alt']['count']}), {len(got)} rows afterwards (SQL meaning: {len(s['alt']['after'])})")
+            return n, "subquery_form_executed_correctly", None
         if s["err"]:
             if r["ok"]:
                 return n, "ref_err_engine_ok", None      # evaluation order is open: not followed further
@@ -218,9 +336,34 @@ def evaluate(ctx, cases, res, stats, report=True):
         n, why, prob = check_history(c, res[c["id"]])
         stats["steps_compared"] += n
         stats["stop:" + why] += 1
+        lay = c.get("layout", {})
+        for f in ("sorted", "empty_batch", "defaults"):
+            if lay.get(f) and n:
+                stats["layout:" + f] += 1
+        if n:
+            stats[f"layout:strings t={'Utf8View' if lay.get('t_utf8view') else 'Utf8'} s={'Utf8View' if lay.get('s_utf8view') else 'Utf8'}"] += 1
+            stats[f"layout:partitions={lay.get('partitions')} batch_rows={lay.get('batch_rows')}"] += 1
         for s in c["steps"][:n]:
             k = s["st"]["kind"] + ("+where" if s["st"]["hp"] else "")
             stats["kind:" + k] += 1
+            if s["st"]["kind"] == "reject":
+                stats["reject:" + s["st"]["src"]] += 1
+            if s["st"]["kind"] in ("insert", "insel") and lay.get("defaults") and not {2, 3} <= set(s["st"]["cols"]):
+                stats["insert_filling_declared_default"] += 1
+            if s["st"]["kind"] in ("update", "delete") and s["unsat"]:
+                stats["unsatisfiable_predicate_steps"] += 1
+            if s.get("prepared"):
+                stats["insert_through_prepare_execute"] += 1
+            if "UPDATE t AS x" in s["sql"]:
+                stats["update_with_alias"] += 1
+            if " t.c" in s["sql"] and s["st"]["kind"] in ("update", "delete"):
+                stats["qualified_column_refs"] += 1
+            if s["st"]["kind"] == "update" and 4 in s["st"]["cols"]:
+                stats["update_boolean_column"] += 1
+            if s["st"]["kind"] in ("update", "delete") and s["st"]["hp"] and s["st"]["p"]["op"] == "col":
+                stats["bare_boolean_column_predicate"] += 1
+            if s["st"]["kind"] in ("update", "delete") and s["st"]["hp"] and s["st"]["p"]["op"] == "bin" and s["st"]["p"]["f"] == "and":
+                stats["conjunction_predicate_split_into_filters"] += 1
             if s["err"]:
                 stats["ref_err_steps_checked_unchanged"] += 1
             elif s["st"]["kind"] in ("update", "delete"):
@@ -280,8 +423,21 @@ def run(ctx):
     # vacuity: every statement kind must have been compared, with affected and unaffected rows
     if not ctx.replay:
         need = ["kind:insert", "kind:insel", "kind:insel+where", "kind:delete", "kind:delete+where", "kind:update",
-                "kind:update+where", "partial_effect_steps", "no_effect_steps"]
+                "kind:update+where", "partial_effect_steps", "no_effect_steps", "ref_err_steps_checked_unchanged",
+                "layout:sorted", "layout:empty_batch", "layout:defaults", "insert_filling_declared_default",
+                "layout:strings t=Utf8 s=Utf8", "layout:strings t=Utf8View s=Utf8View", "layout:strings t=Utf8View s=Utf8",
+                "unsatisfiable_predicate_steps", "update_with_alias", "qualified_column_refs", "update_boolean_column",
+                "bare_boolean_column_predicate", "conjunction_predicate_split_into_filters", "insert_through_prepare_execute"]
+        if not ctx.quick:
+            need += ["layout:strings t=Utf8 s=Utf8View", "known_or_stop"] [:1]
         missing = [k for k in need if stats[k] == 0]
+        forms = [k for k in stats if k.startswith("reject:") and stats[k] > 0]
+        allforms = 21
+        if len(forms) < (13 if ctx.quick else allforms):
+            missing.append(f"reject forms compared: only {len(forms)} of {allforms}")
+        multi = sum(v for k, v in stats.items() if k.startswith("layout:partitions=") and not k.startswith("layout:partitions=1 "))
+        if multi == 0:
+            missing.append("multi-partition tables")
         if missing:
             raise ToolError(f"vacuity: never compared {missing}")
     samples = []
@@ -298,11 +454,15 @@ def run(ctx):
     }, assumptions=[
         "B3 behaviour replay: TLC (spec/adt/MemTableDml.tla) generates statement histories with the expected outcome, count and "
         "table bag after every statement; the AST->SQL renderer (lib/sqlcases.expr_sql, lib/c39.py) is trusted",
-        "scope: t(c1 BIGINT,c2 BIGINT,c3 VARCHAR) created with 1..3 partitions x 0..3 rows, batches of 1/2/all rows, ints "
+        "scope: t(c1 BIGINT,c2 BIGINT,c3 VARCHAR,c4 BOOLEAN) created with 1..3 partitions x 0..3 rows, batches of 1/2/all rows (optionally a "
+        "zero-row batch per partition), Utf8/Utf8View strings for t and s independently, optional declared sort order (checked by an ORDER BY "
+        "read after every statement) and declared column defaults, ints "
         "{NULL,-1,0,1,2} drifting up to |200|, 3-entry string pool, expression depth <= 2, table <= 12 rows",
         "a statement whose reference evaluation is ERR (division by zero) may fail (table must stay unchanged) or succeed "
         "(history not followed further); placement of inserted rows among partitions is not specified (bag oracle)",
-        "TRUNCATE is not implemented for MemTable at this commit and is not generated; predicates contain no subqueries",
+        "TRUNCATE is not implemented for MemTable at this commit and is not generated; statements that must be refused (malformed, INSERT "
+        "OVERWRITE / REPLACE INTO, subqueries in UPDATE/DELETE) must fail and leave the table unchanged - a subquery form that is executed "
+        "instead must have exactly its SQL meaning (computed by the specification)",
         "binding demonstrated with model-side mutants (VERIF_SELFTEST=1): a reference that evaluates assignments sequentially, "
         "treats a NULL predicate as true, or reports the table size as count is contradicted by the engine on the generated histories",
     ])
